@@ -300,6 +300,55 @@ Definition adapter (c : call) : result (list tok) :=
     Ok ([KW "FUNCTION"; KW "LOAD"] ++ (if replace then [KW "REPLACE"] else []) ++ [D code])
   | MClientKillByFilter keys => Ok ([KW "CLIENT"; KW "KILL"] ++ map D keys)
   | MACLLog count => Ok [KW "ACL"; KW "LOG"; zi count]
+  | MZPop max key count =>
+    match count with
+    | [] => Ok [KW (if max then "ZPOPMAX" else "ZPOPMIN"); D key]
+    | [n] => Ok [KW (if max then "ZPOPMAX" else "ZPOPMIN"); D key; zi n]
+    | _ => Panic
+    end
+  | MZRangePlain rev ws key start stop =>
+    Ok ([KW (if rev then "ZREVRANGE" else "ZRANGE"); D key; zi start; zi stop] ++ (if ws then [KW "WITHSCORES"] else []))
+  | MBPop w timeout keys =>
+    (* Timeout(float64(formatSec(timeout))): an integral float prints as the integer *)
+    Ok ([KW (match w with BpL => "BLPOP" | BpR => "BRPOP" | BpZMax => "BZPOPMAX" | BpZMin => "BZPOPMIN" end)] ++
+        map D keys ++ [zi (a_format_sec timeout)])
+  | MBRPopLPush src dst timeout => Ok [KW "BRPOPLPUSH"; D src; D dst; zi (a_format_sec timeout)]
+  | MLMove src dst srcpos dstpos => Ok [KW "LMOVE"; D src; D dst; K srcpos; K dstpos]
+  | MBLMove src dst srcpos dstpos timeout => Ok [KW "BLMOVE"; D src; D dst; K srcpos; K dstpos; zi (a_format_sec timeout)]
+  | MXRangeCmd rev stream a b count =>
+    Ok ([KW (if rev then "XREVRANGE" else "XRANGE"); D stream; D a; D b] ++
+        (match count with Some n => [KW "COUNT"; zi n] | None => [] end))
+  | MXGroupCreate mk stream group start =>
+    Ok ([KW "XGROUP"; KW "CREATE"; D stream; D group; D start] ++ (if mk then [KW "MKSTREAM"] else []))
+  | MXAck stream group ids => Ok ([KW "XACK"; D stream; D group] ++ map D ids)
+  | MXDel stream ids => Ok ([KW "XDEL"; D stream] ++ map D ids)
+  | MEval w script keys args =>
+    (* argsToSlice: a single nil argument reaches reflect.ValueOf(nil).Type() *)
+    if single_nil args then Panic
+    else Ok ([KW (match w with EvEval => "EVAL" | EvEvalSha => "EVALSHA" | EvEvalRO => "EVAL_RO" | EvEvalShaRO => "EVALSHA_RO"
+                           | EvFCall => "FCALL" | EvFCallRO => "FCALL_RO" end); D script; leni keys] ++ map D keys ++ map a_str args)
+  | MPopCount w key count =>
+    Ok [KW (match w with PcSPop => "SPOP" | PcSRand => "SRANDMEMBER" | PcLPop => "LPOP" | PcRPop => "RPOP" end); D key; zi count]
+  | MZRandMember ws key count => Ok ([KW "ZRANDMEMBER"; D key; zi count] ++ (if ws then [KW "WITHSCORES"] else []))
+  | MInterCard zset limit keys =>
+    Ok ([KW (if zset then "ZINTERCARD" else "SINTERCARD"); leni keys] ++ map D keys ++ [KW "LIMIT"; zi limit])
+  | MZMPop order count keys =>
+    Ok ([KW "ZMPOP"; leni keys] ++ map D keys ++ [K order] ++ (if 0 <? count then [KW "COUNT"; zi count] else []))
+  | MBZMPop timeout order count keys =>
+    Ok ([KW "BZMPOP"; zi (a_format_sec timeout); leni keys] ++ map D keys ++ [K order] ++
+        (if 0 <? count then [KW "COUNT"; zi count] else []))
+  | MClientPause dur => Ok [KW "CLIENT"; KW "PAUSE"; zi (a_format_sec dur)]
+  | MSlowLogGet num => Ok [KW "SLOWLOG"; KW "GET"; zi num]
+  | MGeoDist key m1 m2 unit =>
+    let u := upper unit in
+    if bytes_eqb u (bs "M") then Ok [KW "GEODIST"; D key; D m1; D m2; KW "m"]
+    else if bytes_eqb u (bs "MI") then Ok [KW "GEODIST"; D key; D m1; D m2; KW "mi"]
+    else if bytes_eqb u (bs "FT") then Ok [KW "GEODIST"; D key; D m1; D m2; KW "ft"]
+    else if bytes_eqb u (bs "KM") || negb (nonempty u) then Ok [KW "GEODIST"; D key; D m1; D m2; KW "km"]
+    else Panic
+  | MFunctionList pattern withcode =>
+    Ok ([KW "FUNCTION"; KW "LIST"] ++ (if nonempty pattern then [KW "LIBRARYNAME"; D pattern] else []) ++
+        (if withcode then [KW "WITHCODE"] else []))
   end.
 
 (** ---------- correspondence cases (printed by harness/cmd/obs_compatargs) ---------- *)
